@@ -1,6 +1,7 @@
 """Library models: Python builtins, numpy, pandas (assumed contracts, section 7 of DESIGN)
 and the special forms of the spec language."""
 import ast
+import os
 import inspect
 import textwrap
 
@@ -114,7 +115,7 @@ def scalar_binop(ex, st, op, a, b, node=None):
                 if isinstance(a, int) and isinstance(b, int) and b >= 0:
                     return a ** b
         except ZeroDivisionError:
-            raise Unsupported("constant division by zero")
+            raise Unsupported("constant division by zero (line %s, path %s): %r / %r" % (getattr(node, "lineno", "?"), st.pathid, a, b))
         if op not in ("Pow",):
             raise Unsupported("binop %s on constants" % op)
     if isinstance(a, str) or isinstance(b, str) or (is_z3(a) and a.sort() == S) or (is_z3(b) and b.sort() == S):
@@ -155,6 +156,10 @@ def scalar_binop(ex, st, op, a, b, node=None):
     if op == "Pow":
         if (isinstance(a, (int, float)) and a == 2) or (is_z3(a) and _is_numeral(a) and z3.simplify(to_real(a) == 2).eq(z3.BoolVal(True))):
             return exp2(ex, b)
+        if is_z3(b) and _is_numeral(b):
+            bv = z3.simplify(b)
+            if z3.is_int_value(bv) or (z3.is_rational_value(bv) and bv.denominator_as_long() == 1):
+                b = bv.as_long() if z3.is_int_value(bv) else bv.numerator_as_long()
         if isinstance(b, int) and 0 <= b <= 4:
             r = to_z3(a) if b else z3.IntVal(1)
             for _ in range(b - 1):
@@ -374,8 +379,16 @@ def compare(ex, st, op, a, b, node=None):
         if op not in ("Eq", "NotEq"):
             raise Unsupported("ordering of dtypes")
         if a0.kind is None or b0.kind is None or "str" in (a0.kind, b0.kind) and a0.kind == b0.kind:
-            # object vs str dtype of string columns (and unknown kinds) is not modelled: arbitrary outcome
-            r = fresh(B, "dtype_eq")
+            # object vs str dtype of string columns (and unknown kinds) is not modelled: arbitrary outcome -- one outcome
+            # per kind pair and path (the model's values do not depend on it: astype(str) of a string column is the
+            # identity there), so that a function building several tables does not fork at every constructor
+            gk = "dtype_eq:%s:%s" % tuple(sorted((str(a0.kind), str(b0.kind))))
+            r = st.ghost.get(gk)
+            if r is None:
+                r = fresh(B, "dtype_eq")
+                st.ghost = dict(st.ghost)
+                st.ghost[gk] = r
+                used(ex, "object-vs-str dtype of string columns: arbitrary, the same for all tables of one path")
         else:
             r = a0.kind == b0.kind
         if op == "NotEq":
@@ -718,6 +731,20 @@ def compress(ex, st, n, mask_at, hint="sel"):
         # the same mask object selected again on this path: the same enumeration of its True positions
         compress.last_rank = hit[2]
         return hit[0], hit[1]
+    # the same mask written twice (two evaluations of `~is_anti`) enumerates the same positions: one selection per mask
+    # term (canonical in the position variable) and path
+    ck2 = None
+    try:
+        k0 = z3.Const("canon!k", I)
+        t0 = _b(mask_at(k0))
+        if is_z3(t0) and not BINDERS and not os.environ.get("PYVC_NO_CK2"):
+            ck2 = "cmpk:%s|%s" % (z3.simplify(t0).sexpr(), to_z3(n).sexpr())
+            hit = st.ghost.get(ck2)
+            if hit is not None:
+                compress.last_rank = hit[2]
+                return hit[0], hit[1]
+    except Unsupported:
+        ck2 = None
     m = fresh(I, hint + "_m")
     sel = z3.Function(fresh_name(hint), I, I)
     rank = z3.Function(fresh_name(hint + "_rank"), I, I)
@@ -732,6 +759,8 @@ def compress(ex, st, n, mask_at, hint="sel"):
     compress.last_rank = rank
     st.ghost = dict(st.ghost)
     st.ghost[ck] = (m, sel, rank, mask_at, n)
+    if ck2 is not None:
+        st.ghost[ck2] = (m, sel, rank)
     return m, sel
 
 
